@@ -38,6 +38,7 @@ import (
 	"github.com/logrange/logrange/pkg/model"
 	"github.com/logrange/logrange/pkg/model/field"
 	"github.com/logrange/logrange/pkg/model/tag"
+	"github.com/logrange/logrange/pkg/pipe"
 	"github.com/logrange/range/pkg/records"
 	rbytes "github.com/logrange/range/pkg/utils/bytes"
 	"verifharness/internal/lrsrv"
@@ -917,8 +918,58 @@ func sectionPathMatch(rng *vh.Rng) {
 	}
 	specs := batchParallel(slines)
 	probeOk := map[string]bool{}
+	// the SPEC answer of a well-formed pattern carries the leftmost-commit reading (PathSpec.greedyMatch) and the decidable
+	// classes of the round-2 theorems: g=… safe=… safeA=… plain=…
+	greedy := make([]string, len(cases))
+	flags := make([]map[string]bool, len(cases))
+	for i := range specs {
+		f := strings.Fields(specs[i])
+		flags[i] = map[string]bool{}
+		if len(f) > 1 {
+			specs[i] = f[0]
+			for _, kv := range f[1:] {
+				if strings.HasPrefix(kv, "g=") {
+					greedy[i] = kv[2:]
+				} else if j := strings.IndexByte(kv, '='); j > 0 {
+					flags[i][kv[:j]] = kv[j+1:] == "1"
+				}
+			}
+		}
+	}
+	isASCII := func(s string) bool {
+		for i := 0; i < len(s); i++ {
+			if s[i] >= 0x80 {
+				return false
+			}
+		}
+		return true
+	}
 	for i, c := range cases {
 		g := goMatch(c.p, c.n)
+		if greedy[i] != "" && strings.Contains(c.p, "*") {
+			// Props.C05Like: on a well-formed pattern path.Match IS the leftmost-commit reading of '*' (greedyMatch) — proved for
+			// patterns whose '*' bytes are all star terms (plain), brute-force validated beyond; and leftmost-commit = documented
+			// language under starSafe (every name) / starSafeAscii (ASCII names)
+			switch {
+			case g == greedy[i]:
+				res.Dist(sec, "star-pattern-is-leftmost-commit")
+			case flags[i]["plain"]:
+				res.SpecFail(vh.SpecFailure{Section: "pathmatch", Kind: "leftmost-commit", Input: map[string]string{"pattern": vh.HxS(c.p), "name": vh.HxS(c.n)},
+					Impl: g, Spec: greedy[i], Model: outs[i], ImplEqModel: g == outs[i], What: "path.Match differs from the leftmost-commit reading of '*' (PathSpec.greedyMatch) on a well-formed pattern"})
+			default:
+				res.Dist(sec, "star-pattern-differs-from-leftmost-commit-nonplain")
+				res.Note("pathmatch: pattern %q on %q: path.Match=%s leftmost-commit=%s (pattern with an escaped or bracketed '*': not covered by the theorem)", c.p, c.n, g, greedy[i])
+			}
+			if flags[i]["safe"] || (flags[i]["safeA"] && isASCII(c.n)) {
+				res.Dist(sec, "star-safe")
+				if g != specs[i] {
+					res.SpecFail(vh.SpecFailure{Section: "pathmatch", Kind: "pattern-semantics-star-safe", Input: map[string]string{"pattern": vh.HxS(c.p), "name": vh.HxS(c.n)},
+						Impl: g, Spec: specs[i], Model: outs[i], ImplEqModel: g == outs[i], What: "path.Match differs from the documented pattern language on a star-safe pattern (segments between stars are literal, or one-byte terms on an ASCII name)"})
+				}
+			} else {
+				res.Dist(sec, "star-unsafe")
+			}
+		}
 		// SPEC = the documented pattern language (PathSpec): proved equal to the algorithm for patterns without '*'
 		// (pathMatch_eq_spec_noStar); with '*' the greedy algorithm is known to differ on inputs that split a multi-byte
 		// character (cex_star_greedy_splits_rune), so a difference there is only counted
@@ -954,6 +1005,70 @@ func sectionPathMatch(rng *vh.Rng) {
 				Impl: "path.Match(p, \"abc\") accepts, path.Match(p, name) = ErrBadPattern", Spec: "a pattern accepted by the pre-test is evaluable on every name", Model: outs[i], ImplEqModel: g == outs[i],
 				What: "a LIKE pattern that passes the builder's pre-test is malformed for another subject"})
 		}
+	}
+	res.Done(sec)
+}
+
+// sectionCaseMap: the hypothesis `AsciiCase` of Props.C05Env (string_clause_ascii, upper_eq_caseless, lower_eq_caseless): on a
+// string without a byte >= 0x80 Go's strings.ToUpper / strings.ToLower are the byte-wise mappings a-z <-> A-Z of
+// Where.asciiUpper / asciiLower (mirrored here; the driver's environment uses the Lean definitions for ASCII strings, so the
+// where section compares them through every UPPER()/LOWER() evaluation as well).
+func sectionCaseMap(rng *vh.Rng) {
+	sec := res.Section("casemap", "unit-correspondence",
+		"strings.ToUpper / strings.ToLower vs the byte-wise ASCII mapping (Where.asciiUpper/asciiLower): every string of length <= 2 over the 128 ASCII bytes, seeded random ASCII strings up to 40 bytes (letters 1/2); non-trivial = a string the mapping changes")
+	up := func(s string) string {
+		b := []byte(s)
+		for i, c := range b {
+			if 'a' <= c && c <= 'z' {
+				b[i] = c - 32
+			}
+		}
+		return string(b)
+	}
+	lo := func(s string) string {
+		b := []byte(s)
+		for i, c := range b {
+			if 'A' <= c && c <= 'Z' {
+				b[i] = c + 32
+			}
+		}
+		return string(b)
+	}
+	check := func(s string) {
+		key := ""
+		if up(s) != s || lo(s) != s {
+			key = s
+		}
+		res.Eval(sec, key)
+		if g := strings.ToUpper(s); g != up(s) {
+			res.Mismatch(vh.Mismatch{Section: "casemap", Function: "strings.ToUpper on ASCII", Input: map[string]string{"s": vh.HxS(s)}, Impl: vh.HxS(g), Model: vh.HxS(up(s))})
+		}
+		if g := strings.ToLower(s); g != lo(s) {
+			res.Mismatch(vh.Mismatch{Section: "casemap", Function: "strings.ToLower on ASCII", Input: map[string]string{"s": vh.HxS(s)}, Impl: vh.HxS(g), Model: vh.HxS(lo(s))})
+		}
+	}
+	check("")
+	for a := 0; a < 128; a++ {
+		check(string([]byte{byte(a)}))
+		for b := 0; b < 128; b++ {
+			check(string([]byte{byte(a), byte(b)}))
+		}
+	}
+	n := 20000
+	if args.Thorough {
+		n = 200000
+	}
+	for i := 0; i < n; i++ {
+		k := rng.Intn(41)
+		b := make([]byte, k)
+		for j := range b {
+			if rng.Chance(1, 2) {
+				b[j] = byte('A' + rng.Intn(26) + 32*rng.Intn(2))
+			} else {
+				b[j] = byte(rng.Intn(128))
+			}
+		}
+		check(string(b))
 	}
 	res.Done(sec)
 }
@@ -1626,6 +1741,7 @@ func sectionE2E(rng *vh.Rng, extra []e2eCase) {
 	// SPEC / MODEL
 	var lines []string
 	first := make([]int, len(cases))
+	kinds := make([]string, len(cases)) // per case: parse-error | unsupported | supported | skipped (for e2eCallers)
 	for i, c := range cases {
 		exp, perr := parseExpr(c.Text)
 		if perr != nil || exp == nil {
@@ -1678,6 +1794,11 @@ func sectionE2E(rng *vh.Rng, extra []e2eCase) {
 			}
 			continue
 		}
+		if o.skipped {
+			kinds[i] = "skipped"
+		} else if first[i] == -1 {
+			kinds[i] = "parse-error"
+		}
 		if first[i] == -1 {
 			res.Dist(sec, "parse-error")
 			if o.qerr == nil {
@@ -1694,6 +1815,13 @@ func sectionE2E(rng *vh.Rng, extra []e2eCase) {
 			key = hashKey(c.Text+fmt.Sprint(c.Range), c.Page)
 		}
 		res.Eval(sec, key)
+		if kinds[i] == "" {
+			if supported {
+				kinds[i] = "supported"
+			} else {
+				kinds[i] = "unsupported"
+			}
+		}
 		switch {
 		case !supported:
 			res.Dist(sec, "unsupported")
@@ -1718,6 +1846,7 @@ func sectionE2E(rng *vh.Rng, extra []e2eCase) {
 	}
 	res.Sample(map[string]interface{}{"section": "e2e", "query": outs[len(outs)-1].q, "returned": len(outs[len(outs)-1].got), "of": len(all)})
 	e2eRetry(srv, sec, cases, rng)
+	e2eCallers(srv, sec, cases, kinds)
 	res.Done(sec)
 }
 
@@ -1725,6 +1854,115 @@ func sectionE2E(rng *vh.Rng, extra []e2eCase) {
 // again (same ReqId, the position of the end of page 1, which is OLDER than where the held cursor stands). Whatever the
 // cursor buffered at its newer position must not leak into the retried page: every page is the corresponding slice of the
 // filter (SPEC) of the unfiltered read of that partition.
+// e2eCallers: the rejection clause seen from every caller of the WHERE builder (Props.C05Callers). For the texts of this run
+// (all that do not parse or have no meaning, and as many supported ones): the pipe paths — pipe.Service.CreatePipe directly,
+// the API's EnsurePipe through the RPC client, the CREATE PIPE statement through the admin RPC — must fail and leave no pipe of
+// that name exactly when the text does not parse / is unsupported (a pipe with a nil or partial filter would copy every
+// event), and succeed with the same filter text otherwise; and a SELECT over NO matching partition answers with the empty
+// result (model: errNoSources is turned into the empty cursor before the filter is built) unless the text does not parse.
+func e2eCallers(srv *lrsrv.Srv, sec *vh.Section, cases []e2eCase, kinds []string) {
+	max := 60
+	if args.Thorough {
+		max = 400
+	}
+	type pick struct {
+		c    e2eCase
+		kind string
+	}
+	var picks []pick
+	seen := map[string]bool{}
+	nSup := 0
+	for pass := 0; pass < 2; pass++ {
+		for i, c := range cases {
+			if i >= len(kinds) || kinds[i] == "" || kinds[i] == "skipped" || c.Retry || seen[c.Text] || strings.TrimSpace(c.Text) == "" {
+				continue
+			}
+			if (pass == 0) == (kinds[i] == "supported") {
+				continue // first pass: everything rejected; second pass: supported ones up to the budget
+			}
+			if kinds[i] == "supported" {
+				if nSup >= max/2 {
+					continue
+				}
+				nSup++
+			}
+			if len(picks) >= max {
+				break
+			}
+			seen[c.Text] = true
+			picks = append(picks, pick{c, kinds[i]})
+		}
+	}
+	if len(cases) > 1 {
+		// fixed texts: ones the parser rejects (the generated texts all parse) and unsupported ones of every kind
+		for _, t := range []string{`msg contains`, `(msg contains "a"`, `msg contains "a" AND`, `msg contains "a" OR OR msg contains "b"`, `msg "a"`} {
+			picks = append(picks, pick{e2eCase{Text: t, Page: 3}, "parse-error"})
+		}
+		for _, t := range []string{`msg like "["`, `fields:a like "a[b-"`, `nope = "x"`, `fields: = "x"`, `ts < "not a time"`, `ts = 5`, `msg = "a"`,
+			`upper(msg, msg) contains "a"`, `title(msg) contains "a"`, `lower(ts) < 5`, `msg contains "a" AND (fields:a = "b" OR nope = "c")`} {
+			picks = append(picks, pick{e2eCase{Text: t, Page: 3}, "unsupported"})
+		}
+	}
+	ctx := context.Background()
+	const src = `c05="p0"`
+	for i, pk := range picks {
+		c, rejected := pk.c, pk.kind != "supported"
+		for via := 0; via < 3; via++ {
+			if len(picks) > 1 && via != i%3 {
+				continue // one path per text (all three when a single case is replayed)
+			}
+			name := fmt.Sprintf("c05pipe%dv%d", i, via)
+			var cerr error
+			viaName := ""
+			switch via {
+			case 0:
+				viaName = "pipe.Service.CreatePipe"
+				_, cerr = srv.Pipes.CreatePipe(pipe.Pipe{Name: name, TagsCond: src, FltCond: c.Text})
+			case 1:
+				viaName = "rpc EnsurePipe"
+				var pr api.PipeCreateResult
+				cerr = srv.Client.EnsurePipe(ctx, api.Pipe{Name: name, TagsCond: src, FilterCond: c.Text}, &pr)
+				if cerr == nil {
+					cerr = pr.Err
+				}
+			case 2:
+				viaName = "CREATE PIPE statement"
+				_, cerr = srv.Exec("create pipe " + name + " from " + src + " where " + c.Text)
+			}
+			pd, gerr := srv.Pipes.GetPipe(name)
+			res.Eval(sec, "callers|"+viaName+"|"+c.Text)
+			res.Dist(sec, "callers:"+viaName+":"+pk.kind)
+			switch {
+			case rejected && (cerr == nil || gerr == nil):
+				res.SpecFail(vh.SpecFailure{Section: "e2e", Kind: "pipe-accepted-unevaluable", Input: c,
+					Impl: fmt.Sprintf("%s: err=%v; pipe exists afterwards: %v", viaName, cerr, gerr == nil), Spec: "error, and no pipe of that name",
+					What: "a pipe whose filter text " + map[bool]string{true: "does not parse", false: "cannot be evaluated"}[pk.kind == "parse-error"] + " is created (or the creation is acknowledged) instead of being rejected"})
+			case !rejected && (cerr != nil || gerr != nil):
+				res.SpecFail(vh.SpecFailure{Section: "e2e", Kind: "pipe-rejected-valid", Input: c,
+					Impl: fmt.Sprintf("%s: err=%v get=%v", viaName, cerr, gerr), Spec: "pipe created", What: "a pipe with a supported filter is rejected"})
+			case !rejected && via != 2 && pd.FltCond != c.Text:
+				res.SpecFail(vh.SpecFailure{Section: "e2e", Kind: "pipe-filter-changed", Input: c, Impl: pd.FltCond, Spec: c.Text,
+					What: "the created pipe carries another filter text than the one given"})
+			}
+			if gerr == nil {
+				srv.Pipes.DeletePipe(name)
+			}
+		}
+		// SELECT over no matching partition
+		got, qerr := queryAll(srv, `select from c05="nosuch" where `+c.Text+" limit 5", 5)
+		res.Dist(sec, "callers:no-sources:"+pk.kind)
+		if pk.kind == "parse-error" {
+			if qerr == nil {
+				res.SpecFail(vh.SpecFailure{Section: "e2e", Kind: "accepted-unevaluable", Input: c, Impl: fmt.Sprintf("%d events", len(got)), Spec: "query error",
+					What: "a query whose WHERE does not parse is answered (no matching partition)"})
+			}
+		} else if qerr != nil || len(got) != 0 {
+			res.Mismatch(vh.Mismatch{Section: "e2e", Function: "provider.GetOrCreate over no matching partition (errNoSources -> empty cursor)", Input: c,
+				Impl: fmt.Sprintf("err=%v events=%d", qerr, len(got)), Model: "page(empty cursor), no error"})
+		}
+	}
+}
+
 func e2eRetry(srv *lrsrv.Srv, sec *vh.Section, cases []e2eCase, rng *vh.Rng) {
 	const src = `select from c05="p2" `
 	all, err := queryAll(srv, src+"limit 1000", 1000)
@@ -1969,6 +2207,12 @@ func replay(path string) {
 			}
 			checkFiter(c, l, im, outs[1:])
 		}
+	case "casemap":
+		var in map[string]string
+		json.Unmarshal(r.Input, &in)
+		str := string(vh.UnHx(in["s"]))
+		fmt.Printf("s=%q ToUpper=%q ToLower=%q\n", str, strings.ToUpper(str), strings.ToLower(str))
+		sectionCaseMap(vh.NewRng(args.Seed).Fork("casemap"))
 	case "pathmatch":
 		var in map[string]string
 		json.Unmarshal(r.Input, &in)
@@ -1976,8 +2220,24 @@ func replay(path string) {
 		outs, _ := vh.Batch(args.Driver, []string{"match " + vh.HxS(p) + " " + vh.HxS(n)})
 		so, _ := vh.Batch(args.Driver, []string{"specmatch " + vh.HxS(p) + " " + vh.HxS(n)})
 		fmt.Printf("path.Match(%q, %q): impl=%s model=%s spec=%s probe(abc)=%s\n", p, n, goMatch(p, n), outs[0], so[0], goMatch(p, "abc"))
-		if !strings.Contains(p, "*") && goMatch(p, n) != so[0] {
-			res.SpecFail(vh.SpecFailure{Section: "pathmatch", Kind: "pattern-semantics", Input: in, Impl: goMatch(p, n), Spec: so[0], What: "path.Match differs from the documented pattern language on a pattern without '*'"})
+		sf := strings.Fields(so[0])
+		flag := func(k string) bool {
+			for _, kv := range sf {
+				if kv == k+"=1" {
+					return true
+				}
+			}
+			return false
+		}
+		ascii := true
+		for i := 0; i < len(n); i++ {
+			ascii = ascii && n[i] < 0x80
+		}
+		if len(sf) > 0 && goMatch(p, n) != sf[0] && (!strings.Contains(p, "*") || flag("safe") || (flag("safeA") && ascii)) {
+			res.SpecFail(vh.SpecFailure{Section: "pathmatch", Kind: "pattern-semantics", Input: in, Impl: goMatch(p, n), Spec: sf[0], What: "path.Match differs from the documented pattern language on a pattern without '*' or a star-safe pattern"})
+		}
+		if len(sf) > 1 && flag("plain") && strings.Contains(p, "*") && "g="+goMatch(p, n) != sf[1] {
+			res.SpecFail(vh.SpecFailure{Section: "pathmatch", Kind: "leftmost-commit", Input: in, Impl: goMatch(p, n), Spec: sf[1], What: "path.Match differs from the leftmost-commit reading of '*'"})
 		}
 		if goMatch(p, n) != outs[0] {
 			res.Mismatch(vh.Mismatch{Section: "pathmatch", Function: "path.Match", Input: in, Impl: goMatch(p, n), Model: outs[0]})
@@ -2031,6 +2291,7 @@ func main() {
 	extra := sectionCorpus()
 	res.Write(args.Out)
 	sectionPathMatch(rng.Fork("pathmatch"))
+	sectionCaseMap(rng.Fork("casemap"))
 	res.Write(args.Out)
 	sectionFieldsValue(rng.Fork("fieldsvalue"))
 	res.Write(args.Out)
